@@ -530,7 +530,7 @@ func (x *fx) unop(i *ssa.UnOp) {
 		x.vals[i] = t
 		if g, ok := i.X.(*ssa.Global); ok {
 			for _, gi := range e.P.Contracts.GlobalInvs[shortPkg(g.Pkg.Pkg.Path())+"."+g.Name()] {
-				env := &Env{e: e, vars: map[string]TV{}, st: x.cur, old: x.cur, allocOld: x.cur.alloc, pkg: g.Pkg.Pkg, fx: x}
+				env := &Env{e: e, vars: map[string]TV{}, st: x.cur, old: x.cur, allocOld: x.cur.alloc, pkg: g.Pkg.Pkg, fx: x, hyp: true}
 				if tv, err := env.eval(gi.Clause.Expr); err == nil {
 					e.assume(tv.T)
 					e.trusted["globalinv "+gi.Pkg+"."+gi.Name+": "+gi.Clause.Text] = true
